@@ -38,11 +38,11 @@ CONFIGS = {
     # Parquet files (one per table partition) registered as listing tables: with chunk statistics, with a declared
     # file sort order, without statistics, with filter pushdown into the scan
     "Q1": dict(partitions=2, batch_rows=0, source="parquet", settings=[[TP, "1"]]),
-    "Q4": dict(partitions=3, batch_rows=0, source="parquet_page", sorted=1, row_group=4,
+    "Q4": dict(partitions=3, batch_rows=0, source="parquet_page", sorted=1, row_group=4, wide=True,
                settings=[[TP, "4"], [BS, "3"], [OPT + "prefer_existing_sort", "true"],
                          ["datafusion.execution.enable_file_stream_work_stealing", "false"]]),
-    "N2": dict(partitions=2, batch_rows=0, source="parquet_nostats", settings=[[TP, "2"]]),
-    "F4": dict(partitions=2, batch_rows=0, source="parquet", row_group=3,
+    "N2": dict(partitions=2, batch_rows=0, source="parquet_nostats", wide=True, settings=[[TP, "2"]]),
+    "F4": dict(partitions=2, batch_rows=0, source="parquet", row_group=3, wide=True,
                settings=[[TP, "4"], ["datafusion.execution.parquet.pushdown_filters", "true"],
                          ["datafusion.execution.parquet.reorder_filters", "true"],
                          ["datafusion.execution.enable_file_stream_work_stealing", "false"]]),
@@ -54,10 +54,12 @@ CONFIGS = {
 SORTS = {
     1: {"t1": [dict(i=1, asc=True, nf=False), dict(i=2, asc=False, nf=True)],
         "t2": [dict(i=1, asc=True, nf=False)],
-        "t3": [dict(i=1, asc=False, nf=False), dict(i=2, asc=True, nf=True)]},
+        "t3": [dict(i=1, asc=False, nf=False), dict(i=2, asc=True, nf=True)],
+        "t4": [dict(i=1, asc=True, nf=False)]},
     2: {"t1": [dict(i=2, asc=False, nf=False), dict(i=3, asc=True, nf=True)],
         "t2": [dict(i=2, asc=True, nf=True), dict(i=1, asc=True, nf=True)],
-        "t3": [dict(i=2, asc=True, nf=False)]},
+        "t3": [dict(i=2, asc=True, nf=False)],
+        "t4": [dict(i=5, asc=False, nf=True)]},
 }
 
 
@@ -81,8 +83,21 @@ def big_tables(rng, nrows):
     bv = lambda: {"k": "n", "v": 0} if rng.random() < 0.2 else {"k": "b", "v": rng.choice([0, 1])}
     gen = {"i": iv, "s": sv, "b": bv}
     schemas = [("t1", "iis"), ("t2", "ii"), ("t3", "isb")]
-    return [{"name": n, "cols": [{"name": f"c{i+1}", "kind": k} for i, k in enumerate(ks)],
+    tabs = [{"name": n, "cols": [{"name": f"c{i+1}", "kind": k} for i, k in enumerate(ks)],
              "rows": [[gen[k]() for k in ks] for _ in range(rng.randint(nrows // 2, nrows))]} for n, ks in schemas]
+    # t4: columns whose declared facts are easy to get wrong.  c1 free (the column predicates are put on);
+    # c2 ONE distinct non-NULL value plus NULLs; c3 all NULL; c4 genuinely constant; c5 free; c6 = c5 except where it is NULL;
+    # c7 = c5 on every row (NULLs included)
+    NULLV = {"k": "n", "v": 0}
+    rows = []
+    for _ in range(rng.randint(max(6, nrows // 2), max(8, nrows))):
+        c5 = iv()
+        rows.append([iv(), NULLV if rng.random() < 0.4 else {"k": "i", "v": 5}, NULLV, {"k": "i", "v": 7}, c5,
+                     NULLV if rng.random() < 0.35 else c5, c5])
+    rows[0][1], rows[1][1] = {"k": "i", "v": 5}, NULLV
+    rows[0][0], rows[1][0] = {"k": "i", "v": 1}, {"k": "i", "v": 1}          # both survive predicates like c1 > 0 / c1 = 1
+    tabs.append({"name": "t4", "cols": [{"name": f"c{i+1}", "kind": "i"} for i in range(7)], "rows": rows})
+    return tabs
 
 
 # hand-written shapes the generator does not produce: window functions, monotonic projections over sorted
@@ -150,7 +165,217 @@ CORPUS = [
 ]
 
 
-def build_runs(ctx, n_tlc, n_big, configs, big_rows=14, tlc_rows=4, gens=None, corpus=1, extra_corpus=(), corpus_tlc_db=True):
+# ----------------------------------------------------------------------------- operator matrix (coverage by construction)
+CONFIGS.update({
+    # file formats: one file per table partition, explicit schema
+    "C2": dict(partitions=2, batch_rows=0, source="csv", sorted=1, settings=[[TP, "2"]]),
+    "J2": dict(partitions=2, batch_rows=0, source="json", settings=[[TP, "2"]]),
+    "W2": dict(partitions=2, batch_rows=0, source="arrow", wide=True, settings=[[TP, "3"]]),
+    # StreamingTables declared infinite over finite partition streams: the planner takes its streaming paths
+    # (PartialSortExec, SymmetricHashJoinExec, BoundedWindowAggExec input-order modes, StreamingTableExec)
+    "T1": dict(partitions=1, batch_rows=3, source="streaming", sorted=1, settings=[[TP, "1"], [BS, "4"]]),
+    "T2": dict(partitions=2, batch_rows=2, source="streaming", sorted=2, settings=[[TP, "2"], [BS, "3"]]),
+    # hash joins over sorted inputs (probe-side order is declared preserved for some join types): collect-left / partitioned
+    "H1": dict(partitions=1, batch_rows=3, sorted=2, settings=[[TP, "1"], [BS, "4"]]),
+    "H2": dict(partitions=2, batch_rows=2, sorted=1, settings=[[TP, "2"], [BS, "3"], [OPT + "prefer_existing_sort", "true"],
+                                                                [OPT + "hash_join_single_partition_threshold", "0"],
+                                                                [OPT + "hash_join_single_partition_threshold_rows", "0"]]),
+    # optional optimizer rules: window top-n (PartitionedTopKExec), hash-join input buffering (BufferExec)
+    "K4": dict(partitions=2, batch_rows=3, settings=[[TP, "4"], [BS, "4"], [OPT + "enable_window_topn", "true"],
+                                                     ["datafusion.execution.hash_join_buffering_capacity", "4096"]]),
+    # piecewise merge join for single range predicates
+    "PW": dict(partitions=2, batch_rows=3, settings=[[TP, "2"], [OPT + "enable_piecewise_merge_join", "true"]]),
+})
+
+JOIN_TYPES = ["INNER JOIN", "LEFT JOIN", "RIGHT JOIN", "FULL JOIN", "LEFT SEMI JOIN", "LEFT ANTI JOIN", "RIGHT SEMI JOIN", "RIGHT ANTI JOIN"]
+
+
+def join_matrix():
+    """Every join type x {equi, equi + residual filter, range only} x both table orders, selecting the columns the type exposes."""
+    qs = []
+    for jt in JOIN_TYPES:
+        for (l, r) in (("t1", "t2"), ("t2", "t1")):
+            for cond in ("a.c1 = b.c1", "a.c1 = b.c1 AND a.c2 < b.c2", "a.c1 < b.c1"):
+                if "LEFT SEMI" in jt or "LEFT ANTI" in jt:
+                    sel = "a.c1, a.c2"
+                elif "RIGHT SEMI" in jt or "RIGHT ANTI" in jt:
+                    sel = "b.c1, b.c2"
+                else:
+                    sel = "a.c1, a.c2, b.c1 AS e, b.c2 AS d"
+                qs.append(f"SELECT {sel} FROM {l} a {jt} {r} b ON {cond}")
+    qs.append("SELECT a.c1, b.c2 AS d FROM t1 a CROSS JOIN t2 b")
+    qs.append("SELECT c1, c2 FROM t2 WHERE c1 = 1 OR c2 IN (SELECT c1 FROM t1)")            # mark join
+    qs.append("SELECT c1, c2 FROM t2 WHERE c2 > 1 OR EXISTS (SELECT 1 FROM t1 WHERE t1.c1 = t2.c1)")
+    return qs
+
+
+def window_matrix():
+    qs = []
+    parts = ["", "PARTITION BY c1 ", "PARTITION BY c3 ", "PARTITION BY c2 "]
+    orders = ["ORDER BY c1 ASC NULLS LAST", "ORDER BY c2 DESC NULLS FIRST", "ORDER BY c1 DESC NULLS LAST, c2 ASC NULLS LAST"]
+    frames = ["ROWS BETWEEN 1 PRECEDING AND CURRENT ROW", "ROWS BETWEEN 2 PRECEDING AND 1 FOLLOWING", "RANGE BETWEEN UNBOUNDED PRECEDING AND CURRENT ROW",
+              "ROWS BETWEEN UNBOUNDED PRECEDING AND UNBOUNDED FOLLOWING"]
+    k = 0
+    for pb in parts:
+        for ob in orders:
+            fr = frames[k % len(frames)]
+            fn = ["sum(c2)", "count(*)", "min(c2)", "max(c1)"][k % 4]
+            rk = ["row_number()", "rank()", "dense_rank()", "lag(c2)", "lead(c1)", "first_value(c2)", "last_value(c2)", "nth_value(c2, 2)"][k % 8]
+            qs.append(f"SELECT c1, c2, c3, {fn} OVER ({pb}{ob} {fr}) AS w FROM t1")
+            qs.append(f"SELECT c1, c2, {rk} OVER ({pb}{ob}) AS w FROM t1")
+            k += 1
+    return qs
+
+
+SCANQ = [
+    "SELECT c2, c1 FROM t1 WHERE c1 > 0 LIMIT 3",
+    "SELECT c3 FROM t1",
+    "SELECT * FROM t2 LIMIT 2",
+    "SELECT c1 FROM t1 WHERE c3 = 'a'",
+    "SELECT count(*) AS n, min(c1) AS mn, max(c2) AS mx FROM t1",
+    "SELECT c1, c2 FROM t1 ORDER BY c1 ASC NULLS LAST, c2 DESC NULLS FIRST",
+    "SELECT c1, c2 FROM t1 ORDER BY c1 ASC NULLS LAST, c3 ASC NULLS LAST",           # PartialSortExec over streaming sources
+    "SELECT c1, c2 FROM t2 ORDER BY c2 ASC NULLS FIRST, c1 ASC NULLS FIRST LIMIT 3 OFFSET 1",
+    "SELECT c1, c2 FROM t1 LIMIT 3 OFFSET 2",
+    "SELECT c1, count(*) AS n, sum(c2) AS s FROM t1 GROUP BY c1",
+    "SELECT c2, c3, count(*) AS n FROM t1 GROUP BY c2, c3",
+    "SELECT c1, c2 FROM t2 UNION ALL SELECT c1, c2 FROM t1 WHERE c2 > 0",
+    "SELECT c1, c3 FROM t3 WHERE c3 AND c1 IS NOT NULL",
+]
+
+MISCQ = [
+    "SELECT unnest(make_array(c1, c2)) AS u, c1 FROM t2",
+    "SELECT value AS v FROM generate_series(1, 7)",
+    "SELECT value AS v, value % 3 AS m FROM range(0, 9, 2) ORDER BY m ASC, v DESC",
+    "WITH RECURSIVE r AS (SELECT 1 AS n UNION ALL SELECT n + 1 FROM r WHERE n < 5) SELECT n FROM r",
+    "EXPLAIN SELECT c1 FROM t1 WHERE c1 > 0",
+    "EXPLAIN ANALYZE SELECT c1, count(*) FROM t1 GROUP BY c1",
+    "INSERT INTO t2 SELECT c1, c2 FROM t1 WHERE c1 > 0",
+    "SELECT * FROM (SELECT c1, c2, row_number() OVER (PARTITION BY c1 ORDER BY c2 ASC NULLS LAST) AS rn FROM t2) s WHERE rn <= 2",
+    "SELECT c1, max(c2) AS m FROM t2 GROUP BY c1 ORDER BY m DESC NULLS LAST LIMIT 2",
+    "SELECT c1, count(*) AS n FROM (SELECT c1 FROM t1 GROUP BY c1 UNION ALL SELECT c1 FROM t2 GROUP BY c1) u GROUP BY c1",
+    "SELECT * FROM (VALUES (1, 'a'), (2, NULL), (NULL, 'b')) AS v(x, y) WHERE x > 0",
+    "SELECT c1 FROM t1 WHERE c1 > 100",
+    "SELECT c1, c2 FROM t1 WHERE 1 = 0",
+    "SELECT c1, c2 FROM t2 WHERE c2 = (SELECT max(c2) FROM t1)",
+    "SELECT 1 AS one, 'x' AS s",
+]
+
+MONO_FUNCS = ["acos", "acosh", "asin", "asinh", "atan", "atanh", "cbrt", "ceil", "cos", "cosh", "degrees", "exp", "floor", "ln", "log2", "log10",
+              "radians", "sin", "sinh", "sqrt", "tan", "tanh", "abs", "signum", "round", "trunc"]
+
+
+def mono_matrix():
+    """Projections of (possibly) monotonic functions over a column the source is declared sorted by: the projection may
+    declare an ordering on the function value; the data decides (NULLs, NaN outside the domain, decreasing ranges)."""
+    qs = []
+    for f in MONO_FUNCS:
+        qs.append(f"SELECT {f}(CAST(c1 AS DOUBLE)) AS y, c1 FROM t2 ORDER BY c1 ASC NULLS LAST")
+        qs.append(f"SELECT {f}(CAST(c2 AS DOUBLE) / 2) AS y, c2 FROM t2 ORDER BY y ASC NULLS FIRST")
+    qs += ["SELECT atan2(CAST(c1 AS DOUBLE), 2.0) AS y, c1 FROM t2 ORDER BY c1 ASC NULLS LAST",
+           "SELECT log(2.0, CAST(c1 AS DOUBLE)) AS y, c1 FROM t2 ORDER BY c1 ASC NULLS LAST",
+           "SELECT date_trunc('hour', to_timestamp(c1 * 1800)) AS y, c1 FROM t2 ORDER BY c1 ASC NULLS LAST",
+           "SELECT date_bin(INTERVAL '1 hour', to_timestamp(c1 * 1800)) AS y, c1 FROM t2 ORDER BY y ASC NULLS LAST",
+           "SELECT from_unixtime(c1) AS y, c1 FROM t2 ORDER BY c1 ASC NULLS LAST",
+           "SELECT c1 + c2 AS y, c1 - c2 AS z, c1, c2 FROM t2 ORDER BY c1 ASC NULLS LAST, c2 ASC NULLS LAST",
+           "SELECT -c1 AS y, c1 * 2 AS z, c1 / 2 AS q, CAST(c1 AS INT) AS i, CAST(c1 AS VARCHAR) AS s FROM t2 ORDER BY c1 ASC NULLS LAST",
+           "SELECT c1 > 0 AS p, c1 IS NULL AS n, coalesce(c1, 0) AS k, CASE WHEN c1 > 0 THEN c1 ELSE 0 END AS g FROM t2 ORDER BY c1 ASC NULLS LAST"]
+    return qs
+
+
+WIDEQ = [
+    "SELECT * FROM t1",
+    "SELECT * FROM t2 WHERE c1 > 0",
+    "SELECT w_i32, w_f64, w_dec, w_date, w_ts, w_lstr, w_bin FROM t1 ORDER BY w_f64 ASC NULLS LAST",
+    "SELECT w_date, count(*) AS n, min(w_dec) AS mn, max(w_ts) AS mx, sum(w_i32) AS s FROM t1 GROUP BY w_date",
+    "SELECT count(*) AS n, min(w_f64) AS a, max(w_dec) AS b, min(w_date) AS c, max(w_lstr) AS d, min(w_ts) AS e FROM t2",
+    "SELECT a.w_i32, b.w_dec FROM t1 a JOIN t2 b ON a.w_i32 = b.w_i32",
+    "SELECT w_lstr, w_bin FROM t1 WHERE w_f64 >= 0 LIMIT 4",
+]
+
+
+def union_matrix():
+    """Unions of branches with equal / different constants and orderings, and projections that keep, reorder or drop the
+    leading keys of the source ordering (equivalence/properties/union.rs, dependency.rs, projection.rs)."""
+    br = ["SELECT c1, c2 FROM t2 WHERE c1 = 1", "SELECT c1, c2 FROM t2 WHERE c1 = 2", "SELECT c1, c2 FROM t1 WHERE c2 = 0",
+          "SELECT c1, c2 FROM t2", "SELECT c2 AS c1, c1 AS c2 FROM t2", "SELECT c1, c2 FROM t1", "SELECT 1 AS c1, c2 FROM t2"]
+    qs = []
+    for i in range(len(br)):
+        for j in (i, (i + 1) % len(br), (i + 3) % len(br)):
+            qs.append(f"SELECT c1, c2 FROM ({br[i]} UNION ALL {br[j]}) u ORDER BY c1 ASC NULLS LAST, c2 DESC NULLS FIRST")
+    qs += [f"SELECT c1, c2 FROM ({br[0]} UNION ALL {br[1]} UNION ALL {br[3]}) u",
+           f"SELECT c1, count(*) AS n FROM ({br[3]} UNION ALL {br[5]}) u GROUP BY c1",
+           "SELECT c2 FROM t1", "SELECT c2, c1 FROM t1", "SELECT c1 AS a, c1 AS b, c2 FROM t1", "SELECT c1 + c2 AS s, c1 FROM t1",
+           "SELECT c2, c3 FROM t1 ORDER BY c2 DESC NULLS LAST", "SELECT c1, c2 + 1 AS d FROM t1 ORDER BY c1 ASC NULLS LAST, d DESC NULLS FIRST",
+           "SELECT c1, c2, c1 AS k FROM t1 WHERE c1 = c2", "SELECT c1, c2 FROM t1 WHERE c1 = 2 AND c2 = 0",
+           "SELECT a.c1, a.c2 FROM t1 a WHERE a.c1 IN (1, 2) ORDER BY a.c1 ASC NULLS LAST, a.c2 DESC NULLS FIRST",
+           "SELECT c1, min(c2) AS m, max(c2) AS x FROM t1 GROUP BY c1 ORDER BY c1 ASC NULLS LAST",
+           "SELECT c1, first_value(c2 ORDER BY c2 DESC NULLS FIRST) AS f, last_value(c2 ORDER BY c2 DESC NULLS FIRST) AS l FROM t1 GROUP BY c1",
+           "SELECT c1, c2, c3 FROM t1 ORDER BY c1 ASC NULLS LAST, c2 DESC NULLS FIRST LIMIT 5"]
+    return qs
+
+
+def special_matrix():
+    """t4: predicates on c1 (and on nothing), then orderings / groupings / joins on the single-value-plus-NULL, all-NULL,
+    constant and almost-equal columns, so that every constant / equivalence an operator derives from statistics or
+    predicates is put to use."""
+    preds = ["", "WHERE c1 > 0", "WHERE c1 = 1", "WHERE c1 >= 0 AND c1 < 3", "WHERE c1 IS NOT NULL", "WHERE c1 IN (1, 2)", "WHERE c1 > 0 AND c5 = c6",
+             "WHERE c4 = 7 AND c1 > 0", "WHERE c2 = 5", "WHERE c2 IS NULL OR c1 > 0"]
+    tails = ["ORDER BY c2 ASC NULLS FIRST, c5 ASC NULLS LAST", "ORDER BY c2 DESC NULLS LAST", "ORDER BY c3 ASC NULLS FIRST, c1 ASC NULLS LAST",
+             "ORDER BY c4 ASC, c2 ASC NULLS LAST", "ORDER BY c6 ASC NULLS FIRST, c5 ASC NULLS FIRST", "ORDER BY c5 ASC NULLS LAST, c7 DESC NULLS FIRST, c6 ASC NULLS LAST"]
+    qs = []
+    for pi, pr in enumerate(preds):
+        for ti in (pi % len(tails), (pi + 1) % len(tails), (pi + 3) % len(tails)):
+            qs.append(f"SELECT c1, c2, c3, c4, c5, c6, c7 FROM t4 {pr} {tails[ti]}")
+        qs.append(f"SELECT c2, count(*) AS n, min(c5) AS m FROM t4 {pr} GROUP BY c2")
+        qs.append(f"SELECT c2, c4, c6, count(*) AS n FROM t4 {pr} GROUP BY c2, c4, c6 ORDER BY c2 ASC NULLS FIRST, c6 ASC NULLS LAST")
+    # a filter that cannot be pushed into the scan (LIMIT / window / aggregate barrier below it) sees the scan's EXACT min/max
+    barriers = ["(SELECT * FROM t4 ORDER BY c5 ASC NULLS LAST LIMIT 1000)", "(SELECT *, count(*) OVER () AS total FROM t4)",
+                "(SELECT * FROM t4 LIMIT 500)", "(SELECT c1, c2, c3, c4, c5, c6, c7, count(*) AS n FROM t4 GROUP BY c1, c2, c3, c4, c5, c6, c7)"]
+    for bi, b in enumerate(barriers):
+        for pr in ("WHERE c1 > 0", "WHERE c1 = 1", "WHERE c1 >= 0 AND c5 >= 0"):
+            qs.append(f"SELECT c1, c2, c3, c4, c5, c6 FROM {b} s {pr} {tails[bi % len(tails)]}")
+            qs.append(f"SELECT c2, count(*) AS n FROM {b} s {pr} GROUP BY c2 ORDER BY c2 ASC NULLS LAST")
+    for pr in preds[1:5]:
+        qs.append(f"SELECT a.c1, a.c2, b.c2 AS d FROM (SELECT * FROM t4 {pr}) a JOIN t4 b ON a.c2 = b.c2 ORDER BY a.c2 ASC NULLS FIRST")
+        qs.append(f"SELECT a.c2, a.c6, b.c1 AS e FROM (SELECT * FROM t4 {pr}) a LEFT JOIN t2 b ON a.c6 = b.c1 ORDER BY a.c6 ASC NULLS FIRST, a.c2 ASC NULLS LAST")
+        qs.append(f"SELECT c2, c5, row_number() OVER (PARTITION BY c2 ORDER BY c5 ASC NULLS LAST) AS rn FROM t4 {pr}")
+        qs.append(f"SELECT DISTINCT c2, c3, c4 FROM t4 {pr}")
+        qs.append(f"SELECT c2, c6 FROM t4 {pr} UNION ALL SELECT c2, c6 FROM t4 WHERE c1 < 0 ORDER BY c2 ASC NULLS LAST, c6 ASC NULLS FIRST")
+    return qs
+
+
+FAMILIES = {
+    # family: (queries, configurations)
+    "join": (join_matrix, ["H1", "H2", "P4", "M4", "PW", "T2", "K4"]),
+    "window": (window_matrix, ["A1", "B4", "T1"]),
+    "scan": (lambda: SCANQ, ["Q1", "C2", "J2", "W2", "T1", "T2"]),
+    "misc": (lambda: MISCQ, ["A1", "P4", "M4", "K4"]),
+    "mono": (mono_matrix, ["M4", "S3"]),
+    "union": (union_matrix, ["M4", "S3", "H1", "H2"]),
+    "wide": (lambda: WIDEQ, ["Q4", "N2", "W2", "F4"]),
+    "special": (special_matrix, ["Q1", "Q4", "F4", "B4"]),
+}
+
+
+def matrix_runs(ctx, lines, meta, families=None, thorough=False):
+    """Append the operator matrix (coverage by construction) to a run set."""
+    rng = random.Random(ctx.seed * 31 + 3)
+    dbs = [big_tables(rng, 14) for _ in range(3 if thorough else 1)]
+    for fam, (qf, cfgs) in FAMILIES.items():
+        if families is not None and fam not in families:
+            continue
+        for qi, sql in enumerate(qf()):
+            for di, db in enumerate(dbs):
+                for cf in cfgs:
+                    cfg = dict(CONFIGS[cf], name=cf)
+                    tabs = sort_tables(db, cfg["sorted"]) if cfg.get("sorted") else db
+                    rid = f"m-{fam}{qi}/d{di}/{cf}"
+                    lines.append({"id": rid, "sql": sql, "tables": tabs, "cfg": cfg})
+                    meta[rid] = {"case": None, "cfg": cf, "sql": sql, "src": "matrix-" + fam, "tables": tabs}
+
+
+def build_runs(ctx, n_tlc, n_big, configs, big_rows=14, tlc_rows=4, gens=None, corpus=1, extra_corpus=(), corpus_tlc_db=True, corpus_cfgs=None):
     """Returns (lines for the recorder, meta by run id, TLC generation result list).
     Sources of queries: TLC-generated plans (PlanGen, with the reference result) and the corpus; sources of
     data: the TLC-generated databases and larger random databases; each under every listed configuration."""
@@ -183,7 +408,9 @@ def build_runs(ctx, n_tlc, n_big, configs, big_rows=14, tlc_rows=4, gens=None, c
     if corpus:
         for qi, sql in enumerate(CORPUS + list(extra_corpus)):
             for di, db in enumerate(dbs[:corpus] + ([cases[0]["tables"]] if cases and corpus_tlc_db else [])):
-                for cf in configs:
+                # quick tier: each corpus query under `corpus_cfgs` of the configurations, rotating so that all are used
+                use = configs if not corpus_cfgs else [configs[(qi + j) % len(configs)] for j in range(min(corpus_cfgs, len(configs)))]
+                for cf in use:
                     add(f"q{qi}/d{di}/{cf}", sql, db, cf, src="corpus")
     return lines, meta, tlcruns
 
@@ -237,7 +464,7 @@ def slim(run, check):
     return out
 
 
-def tlc_validate(ctx, check, logs, tag, chunk=1200):
+def tlc_validate(ctx, check, logs, tag, chunk=1700):
     """logs: list of {"id","nodes"} -> {run id: [bad...]} as rejected by TLC (ContractTrace / OperatorContract)."""
     if not logs:
         return {}, 0
@@ -282,21 +509,80 @@ def bkey(b):
 
 # ----------------------------------------------------------------------------- operator coverage
 def op_label(n):
+    """Operator type refined by the mode / variant that selects a different code path."""
     name, d = n["name"], n.get("detail", "")
     m = re.search(r"join_type=(\w+)", d)
     jt = ":" + m.group(1) if m else ""
-    mm = re.search(r"mode=(\w+)", d)
-    mode = ":" + mm.group(1) if mm and name in ("HashJoinExec", "AggregateExec") else ""
+    mm = re.search(r"mode=\[?(\w+)", d)
+    mode = ":" + mm.group(1) if mm and name in ("HashJoinExec", "AggregateExec", "SymmetricHashJoinExec", "BoundedWindowAggExec") else ""
     extra = ""
-    if name == "RepartitionExec":
+    if name.startswith("SortExec"):
+        name = "SortExec"
+        extra = (":TopK" if "TopK" in d else (":fetch" if n.get("fetch") else "")) + (":preserve_partitioning" if "preserve_partitioning=[true]" in d else "")
+    elif name == "DataSourceExec":
+        ft = re.search(r"file_type=(\w+)", d)
+        extra = ":" + ("memory" if "partition_sizes=" in d else (ft.group(1) if ft else "other"))
+        if re.search(r"\b(limit|fetch)=\d", d):
+            extra += ":limit"
+        if "predicate=" in d:
+            extra += ":predicate"
+        if "output_ordering" in d:
+            extra += ":ordered"
+    elif name == "GlobalLimitExec":
+        extra = (":skip" if not re.search(r"skip=0\b", d) else "") + (":fetch" if "fetch=None" not in d else "")
+    elif name == "RepartitionExec":
         extra = ":" + re.sub(r"\(.*", "", d.split("partitioning=")[1]) if "partitioning=" in d else ""
         if "preserve_order=true" in d:
             extra += ":preserve_order"
-    if name == "AggregateExec" and "ordering_mode=" in d:
-        extra = ":" + re.sub(r"\(.*", "", d.split("ordering_mode=")[1])
-    if name == "SortExec" and "TopK" in d:
-        extra = ":TopK"
+    elif name == "AggregateExec" and "ordering_mode=" in d:
+        extra = ":" + re.sub(r"\W.*", "", d.split("ordering_mode=")[1])
+    elif name in ("HashJoinExec", "NestedLoopJoinExec", "SortMergeJoinExec", "SymmetricHashJoinExec", "PiecewiseMergeJoinExec") and "filter=" in d:
+        extra = ":filter"
+    elif name in ("CoalescePartitionsExec", "SortPreservingMergeExec") and "fetch=" in d:
+        extra = ":fetch"
     return name + mode + jt + extra
+
+
+def coverage_judged(runs):
+    """Per refined operator label: nodes whose output was consumed in full (the position in which C28/C29/C53 judge)."""
+    ops = collections.Counter()
+    for r in runs:
+        for n in r.get("nodes", []):
+            if n["full"]:
+                ops[op_label(n)] += 1
+    return dict(sorted(ops.items()))
+
+
+_JT8 = ["Inner", "Left", "Right", "Full", "LeftSemi", "LeftAnti", "RightSemi", "RightAnti"]
+REQUIRED_OPERATORS = (
+    ["AggregateExec:" + m for m in ("Final", "FinalPartitioned", "Partial", "Single", "SinglePartitioned", "Single:Sorted", "Partial:Sorted",
+                                    "FinalPartitioned:Sorted", "Partial:PartiallySorted")]
+    + ["AnalyzeExec", "BoundedWindowAggExec:Sorted", "BoundedWindowAggExec:Linear", "BufferExec", "CoalescePartitionsExec", "CrossJoinExec",
+       "DataSinkExec", "DataSourceExec:memory", "DataSourceExec:parquet", "DataSourceExec:csv", "DataSourceExec:json", "DataSourceExec:arrow",
+       "EmptyExec", "ExplainExec", "FilterExec", "GlobalLimitExec:skip", "LocalLimitExec", "InterleaveExec", "LazyMemoryExec", "PartialSortExec",
+       "PartitionedTopKExec", "PlaceholderRowExec", "ProjectionExec", "RecursiveQueryExec", "RepartitionExec:Hash", "RepartitionExec:Hash:preserve_order",
+       "RepartitionExec:RoundRobinBatch", "ScalarSubqueryExec", "SortExec", "SortExec:TopK",
+       "SortExec:TopK:preserve_partitioning", "SortExec:preserve_partitioning", "SortPreservingMergeExec", "SortPreservingMergeExec:fetch",
+       "StreamingTableExec", "UnionExec", "UnnestExec", "WindowAggExec", "WorkTableExec"]
+    + ["HashJoinExec:CollectLeft:" + j for j in _JT8 + ["RightMark"]] + ["HashJoinExec:Partitioned:" + j for j in _JT8 + ["RightMark"]]
+    + ["SortMergeJoinExec:" + j for j in _JT8 + ["LeftMark"]]
+    + ["SymmetricHashJoinExec:Partitioned:" + j for j in _JT8]
+    + ["NestedLoopJoinExec:" + j for j in ("Inner", "Left", "Right", "Full", "RightSemi", "RightAnti")]
+    + ["PiecewiseMergeJoinExec:" + j for j in ("Inner", "Left", "Right", "Full", "LeftSemi", "LeftAnti")]
+)
+# operator types of the source tree that no SQL / configuration of this version plans (reported, not required):
+NOT_REACHED = {"CoalesceBatchesExec": "deprecated; no planner or optimizer rule of this version inserts it",
+               "AsOfJoinExec": "no SQL syntax / planner path", "AsyncFuncExec": "needs an async UDF",
+               "CooperativeExec": "only wraps non-cooperative custom leaves", "DmlResultExec": "DELETE/UPDATE on MemTable only"}
+
+
+def require_operators(runs, required):
+    """Vacuity guard: every listed operator label prefix must occur in a judged position."""
+    have = coverage_judged(runs)
+    missing = [r for r in required if not any(k == r or k.startswith(r + ":") for k in have)]
+    if missing:
+        raise ToolError(f"vacuity: operator types never observed in a judged position (output consumed in full): {missing}")
+    return have
 
 
 def coverage(runs):
@@ -394,9 +680,9 @@ def mutants(check, runs, rng, per_kind=3):
                         break
             elif check == "C29":
                 for si, st in enumerate(n["stats"]):
-                    of = [x for x in n["streams"] if st["p"] == -1 or x["p"] == st["p"]]
+                    of = [x for x in n["streams"] if st["p"] < 0 or x["p"] == st["p"]]
                     if not (n["full"] and all(b["ok"] for x in n["streams"] for b in x["batches"])
-                            and len(of) == (n["np"] if st["p"] == -1 else 1)):
+                            and len(of) == (n["np"] if st["p"] < 0 else 1)):
                         continue
                     obs = [r for x in of for r in _flat(x)]
                     if st["rows"]["x"] == 1 and n["full"]:
@@ -428,6 +714,12 @@ def mutants(check, runs, rng, per_kind=3):
                         kinds["analyze-rendering-off-by-one"] += 1
                         r3["id"] = f"MUT:analyze-rendering-off-by-one:{len(out)}:{run['id']}"
                         out.append((r3, "analyze_rows", [n2["id"] for n2 in r3["nodes"]].index(a["id"]) if a["id"] in [n2["id"] for n2 in r3["nodes"]] else 0))
+                if n["full"] and n["metrics"]["has"] and len(n["metrics"]["per"]) >= 2 and n["metrics"]["per"][0]["n"] > 0 \
+                        and sum(e["n"] for e in n["metrics"]["per"]) == n["metrics"]["rows"]:
+                    m = json.loads(json.dumps(n))
+                    m["metrics"]["per"][0]["n"] -= 1
+                    m["metrics"]["per"][1]["n"] += 1
+                    emit(run, ni, m, "part_rows", "rows-counted-on-the-wrong-partition")
                 if n["full"] and n["metrics"]["has"]:
                     m = json.loads(json.dumps(n))
                     m["metrics"]["rows"] += 1
@@ -436,7 +728,7 @@ def mutants(check, runs, rng, per_kind=3):
                         m = json.loads(json.dumps(n))
                         m["metrics"]["rows"] *= 2
                         emit(run, ni, m, "output_rows", "metric-counted-twice")
-        if len(kinds) and all(v >= per_kind for v in kinds.values()) and len(kinds) >= {"C28": 5, "C30": 3, "C29": 3, "C53": 4}[check]:
+        if len(kinds) and all(v >= per_kind for v in kinds.values()) and len(kinds) >= {"C28": 5, "C30": 3, "C29": 3, "C53": 5}[check]:
             break
     return out, dict(kinds)
 
@@ -458,14 +750,14 @@ def origin(run, node, check, kinds):
 
 def origin_at(run, node, check, kinds, p):
     """As `origin`, following violations about the same partition scope (whole node: p = -1, else per partition)."""
-    whole = p == -1 or node["np"] == 1          # a single-partition node's partition 0 is its whole output
+    whole = p < 0 or node["np"] == 1          # a single-partition node's partition 0 is its whole output
     while True:
-        bad = {b["n"] for b in run["rust_bad"][check] if b["f"] in kinds and (whole or b["p"] >= 0)}
+        bad = {b["n"] for b in run["rust_bad"][check] if b["f"] in kinds and ((b["p"] == p if p == -2 else b["p"] != -2) and (whole or b["p"] >= 0))}
         kids = [c for c in children(run, node) if c["id"] in bad]
         if not kids:
             return node, whole
         node = kids[0]
-        if whole and node["np"] > 1 and not any(b["n"] == node["id"] and b["p"] == -1 and b["f"] in kinds for b in run["rust_bad"][check]):
+        if whole and node["np"] > 1 and not any(b["n"] == node["id"] and b["p"] < 0 and b["f"] in kinds for b in run["rust_bad"][check]):
             whole = False
 
 
@@ -480,7 +772,7 @@ def judge(ctx, check, runs, meta, known_key=None, extra_violations=None, chunk=N
     ok = [r for r in runs if r["status"] == "ok"]
     # queries whose result is not a function of the input (ties under ROWS frames / ranking, LIMIT without a total
     # order, order-dependent aggregates, float summation order) are exempt from the inertness comparison
-    nondet = re.compile(r" OVER |LIMIT|OFFSET|DISTINCT ON|array_agg|string_agg|first_value|avg\(|stddev|var_pop|corr\(|median|approx_", re.I)
+    nondet = re.compile(r" OVER |LIMIT|OFFSET|DISTINCT ON|array_agg|string_agg|first_value|avg\(|stddev|var_pop|corr\(|median|approx_|EXPLAIN|generate_series|range\(", re.I)
     differs = [r for r in ok if not r["inert"]]
     not_inert = [r for r in differs if not r["has_fetch"] and not nondet.search(meta[r["id"]]["sql"])]
     inert_err = [r for r in runs if r["status"] == "inert_err"]
@@ -528,6 +820,32 @@ def judge(ctx, check, runs, meta, known_key=None, extra_violations=None, chunk=N
             "nondeterministic_queries_with_different_result": len(differs) - len(not_inert), "nodes_judged": judged - sum(len(m[0]["nodes"]) for m in muts),
             "tlc_states": judged, "rejections_confirmed": confirmed,
             "selftest_corrupted_logs_rejected": len(muts), "selftest_kinds": mkinds}
+
+
+def filter_singleton_hazards(runs):
+    """FilterExec nodes whose input reports Exact min == max for a column the predicate does not mention while the filter's
+    output mixes NULL and that value in one partition: where a constant derived from statistics alone would be wrong."""
+    hz = collections.Counter()
+    for r in runs:
+        for nd in r.get("nodes", []):
+            if nd["name"] != "FilterExec":
+                continue
+            kids = children(r, nd)
+            if len(kids) != 1 or kids[0]["w"] != nd["w"]:
+                continue
+            for st in kids[0]["stats"]:
+                if st["p"] != -1:
+                    continue
+                for ci, c in enumerate(st["cols"]):
+                    if c["min"]["x"] == 1 and c["max"]["x"] == 1 and c["min"]["v"] == c["max"]["v"] and ci < nd["w"]:
+                        name = kids[0]["exprs"][ci].split("@")[0]
+                        if name in nd["detail"]:
+                            continue
+                        for s in nd["streams"]:
+                            if {row[ci]["k"] for b in s["batches"] for row in b["rows"]} >= {"n", "i"}:
+                                hz[r["cfg"] + ":" + name] += 1
+                                break
+    return dict(hz)
 
 
 def fact_counts(runs):
